@@ -61,6 +61,7 @@ IdWord == <<0, ArchPatch + 16 * ArchMinor + 4096 * ArchMajor>>
 
 (* the length field is 8 + 16 bits wide: longer streams cannot be declared *)
 MaxLen == 256 * 65536
+HwLimitBytes == 256 * 65536      \* the hardware limit: 16 MiB of command stream (bytes), enforced by the generator
 LenHi(n) == n \div 65536
 LenLo(n) == n % 65536
 DeclaredLen(w) == Res(w) * 65536 + Param(w)
